@@ -5,6 +5,9 @@ import pickle
 import traceback
 
 
+CHILD_WALL_S = 600
+
+
 class ForkError(Exception):
     pass
 
@@ -15,6 +18,8 @@ def in_fork(fn, *args):
     if pid == 0:
         code = 0
         try:
+            import signal
+            signal.alarm(CHILD_WALL_S)      # wall-clock backstop: a hung child must not hang the worker
             os.close(r)
             try:
                 res = ("ok", fn(*args))
